@@ -108,6 +108,8 @@ def run_case(c, rnd):
     rec.update(meta)
     rec["cfe"] = outcome(lambda: jsonrpc.check_for_errors(json.loads(text)))
     rec["proxy"] = outcome(lambda: jsonrpc.ServerProxy("http://loop/", transport=Loop(text), config=cfg).ping(1))
+    # a notification call that the peer answers all the same: an error in that reply is not swallowed
+    rec["notify"] = outcome(lambda: jsonrpc.ServerProxy("http://loop/", transport=Loop(text), config=cfg)._notify.ping(1))
 
     def mc(access):
         p = jsonrpc.ServerProxy("http://loop/", transport=Loop("[%s, %s]" % (text, json.dumps(ok))), config=cfg)
